@@ -277,6 +277,15 @@ func eval(c Case) (f *pbt.Fail) {
 		alt := append(append([]byte{}, b[:24]...), []byte("\xff\xd8\xffII*\x00ftypcrx <x:xmpmeta")...)
 		t, e = imagetype.Buf(alt)
 		rs = append(rs, res{"Buf(prefix+othertail)", t, e})
+		// suffix independence against tails built from every signature fragment at every alignment
+		// (a classifier that looks for a brand or magic beyond byte 24 would be swayed by one of them)
+		for ti, tl := range sigTails() {
+			copy(tailBuf[:24], b[:24])
+			n := copy(tailBuf[24:], tl)
+			if t2, e2 := imagetype.Buf(tailBuf[:24+n]); t2 != t || e2 != e {
+				return pbt.Failf("suffix", "Buf(prefix ++ tail #%d %q) = (%v, %v) but Buf(prefix) = (%v, %v) on %x", ti, tl, t2, e2, t, e, b[:24])
+			}
+		}
 	}
 	t, e := imagetype.Scan(bytes.NewReader(b))
 	rs = append(rs, res{"Scan(bytes.Reader)", t, e})
@@ -336,6 +345,32 @@ func eval(c Case) (f *pbt.Fail) {
 		return pbt.Failf("miss:"+want.String(), "header %x carries the signature of %v (no competing format) but was classified %v", h, want, tBuf)
 	}
 	return nil
+}
+
+var tailBuf [24 + 64]byte
+var sigTailCache [][]byte
+
+// sigTails: every fragment repeated over 32 bytes, shifted by 0..3 bytes.
+func sigTails() [][]byte {
+	if sigTailCache != nil {
+		return sigTailCache
+	}
+	for _, f := range fragments {
+		if len(f) < 2 {
+			continue
+		}
+		for shift := 0; shift < 4; shift++ {
+			tl := make([]byte, 0, 40)
+			for i := 0; i < shift; i++ {
+				tl = append(tl, 0)
+			}
+			for len(tl) < 32 {
+				tl = append(tl, f...)
+			}
+			sigTailCache = append(sigTailCache, tl[:32])
+		}
+	}
+	return sigTailCache
 }
 
 func nontrivial(b []byte, origType imagetype.ImageType) bool {
